@@ -392,7 +392,7 @@ def e2e_sweep(ctx):
     t0 = time.time()
     cases = e2e.sweep_cases(ctx.tier)
     for c in cases:
-        c['limit'] = 900 if ctx.tier == 'thorough' else 300
+        c['limit'] = (120 if c.get('damaged') else 900) if ctx.tier == 'thorough' else (60 if c.get('damaged') else 300)
     results = e2e.run_pool(e2e.sweep_case, cases, workers=8)
     dist, mine, big = {}, [], 0
     for r, c in zip(results, cases):
